@@ -89,7 +89,8 @@ func (b *exampleBuilder) buildExampleForObjectNode(node *internalSchema.ObjectNo
 
 func (b *exampleBuilder) buildObjectKey(k internalSchema.ObjectNodeKey) ([]byte, error) {
 	if !k.IsShortcut {
-		return []byte(k.Key), nil
+		// The key is stored decoded, it has to be escaped again.
+		return escapeJSONString(k.Key), nil
 	}
 
 	typ, ok := b.types[k.Key]
@@ -102,6 +103,29 @@ func (b *exampleBuilder) buildObjectKey(k internalSchema.ObjectNodeKey) ([]byte,
 		return nil, err
 	}
 	return stdBytes.Trim(ex, `"`), nil
+}
+
+// escapeJSONString returns s as the content of a JSON string (without the
+// surrounding quotes).
+func escapeJSONString(s string) []byte {
+	out := make([]byte, 0, len(s))
+	for i := 0; i < len(s); i++ {
+		switch c := s[i]; {
+		case c == '"' || c == '\\':
+			out = append(out, '\\', c)
+		case c == '\n':
+			out = append(out, '\\', 'n')
+		case c == '\r':
+			out = append(out, '\\', 'r')
+		case c == '\t':
+			out = append(out, '\\', 't')
+		case c < 0x20:
+			out = append(out, fmt.Sprintf("\\u%04x", c)...)
+		default:
+			out = append(out, c)
+		}
+	}
+	return out
 }
 
 func (b *exampleBuilder) buildExampleForArrayNode(node *internalSchema.ArrayNode) ([]byte, error) {
